@@ -1,5 +1,7 @@
 package main
 
+import "strings"
+
 func init() {
 	const (
 		prb  = "pkg/probing/probe.go"
@@ -13,6 +15,24 @@ func init() {
 	const ogIf = "\tif observedGeneration, ok, err := unstructured.NestedInt64(\n\t\tunstr.Object, \"status\", \"observedGeneration\",\n\t); err == nil && ok && observedGeneration != obj.GetGeneration() {\n\t\treturn false, []string{\".status outdated\"}\n\t}"
 	const cndGen = "\t\t// Check the condition's observed generation, if set\n\t\tif observedGeneration, ok, err := unstructured.NestedInt64(\n\t\t\tcond, \"observedGeneration\",\n\t\t); err == nil && ok && observedGeneration != obj.GetGeneration() {\n\t\t\treturn false, \"outdated\"\n\t\t}\n"
 	const cndStatus = "\t\tif cond[\"status\"] == cp.Status {\n\t\t\treturn true, \"\"\n\t\t}\n"
+	const prsProbesDoc = "// ParseProbes takes a []corev1alpha1.Probe and compiles it into a Prober.\n"
+	const prsSwitch = "\t\tvar (\n\t\t\tprobe probing.Prober\n\t\t\terr   error\n\t\t)\n\n\t\tswitch {\n" +
+		"\t\tcase probeSpec.FieldsEqual != nil:\n\t\t\tprobe = &probing.FieldsEqualProbe{\n\t\t\t\tFieldA: probeSpec.FieldsEqual.FieldA,\n\t\t\t\tFieldB: probeSpec.FieldsEqual.FieldB,\n\t\t\t}\n\n" +
+		"\t\tcase probeSpec.Condition != nil:\n\t\t\tprobe = &probing.ConditionProbe{\n\t\t\t\tType:   probeSpec.Condition.Type,\n\t\t\t\tStatus: probeSpec.Condition.Status,\n\t\t\t}\n\n" +
+		"\t\tcase probeSpec.CEL != nil:\n\t\t\tprobe, err = probing.NewCELProbe(\n\t\t\t\tprobeSpec.CEL.Rule,\n\t\t\t\tprobeSpec.CEL.Message,\n\t\t\t)\n\t\t\tif err != nil {\n\t\t\t\treturn nil, err\n\t\t\t}\n\n" +
+		"\t\tdefault:\n\t\t\t// probe has no known config\n\t\t\tcontinue\n\t\t}\n"
+	const prsHelperCall = "\t\tprobe, known, err := c17tParseOne(probeSpec)\n\t\tif err != nil {\n\t\t\treturn nil, err\n\t\t}\n\t\tif !known {\n\t\t\tcontinue\n\t\t}\n"
+	const prsHelper = "func c17tParseOne(probeSpec corev1alpha1.Probe) (probing.Prober, bool, error) {\n\tswitch {\n" +
+		"\tcase probeSpec.FieldsEqual != nil:\n\t\treturn &probing.FieldsEqualProbe{\n\t\t\tFieldA: probeSpec.FieldsEqual.FieldA,\n\t\t\tFieldB: probeSpec.FieldsEqual.FieldB,\n\t\t}, true, nil\n" +
+		"\tcase probeSpec.Condition != nil:\n\t\treturn &probing.ConditionProbe{\n\t\t\tType:   probeSpec.Condition.Type,\n\t\t\tStatus: probeSpec.Condition.Status,\n\t\t}, true, nil\n" +
+		"\tcase probeSpec.CEL != nil:\n\t\tcelProbe, err := probing.NewCELProbe(probeSpec.CEL.Rule, probeSpec.CEL.Message)\n\t\tif err != nil {\n\t\t\treturn nil, false, err\n\t\t}\n\t\treturn celProbe, true, nil\n" +
+		"\tdefault:\n\t\treturn nil, false, nil\n\t}\n}\n\n"
+	const prsEntry = "\t\tvar (\n\t\t\tprobe probing.Prober\n\t\t\terr   error\n\t\t)\n\t\tprobe, err = ParseProbes(ctx, pkgProbe.Probes)\n\t\tif err != nil {\n\t\t\treturn nil, fmt.Errorf(\"parsing probe #%d: %w\", i, err)\n\t\t}\n" +
+		"\t\tprobe, err = ParseSelector(ctx, pkgProbe.Selector, probe)\n\t\tif err != nil {\n\t\t\treturn nil, fmt.Errorf(\"parsing selector of probe #%d: %w\", i, err)\n\t\t}\n"
+	const prsEntryCall = "\t\tprobe, err := c17tParseEntry(ctx, i, pkgProbe)\n\t\tif err != nil {\n\t\t\treturn nil, err\n\t\t}\n"
+	const prsEntryHelper = "func c17tParseEntry(ctx context.Context, index int, pkgProbe corev1alpha1.ObjectSetProbe) (probing.Prober, error) {\n" +
+		"\tprobe, err := ParseProbes(ctx, pkgProbe.Probes)\n\tif err != nil {\n\t\treturn nil, fmt.Errorf(\"parsing probe #%d: %w\", index, err)\n\t}\n" +
+		"\tprobe, err = ParseSelector(ctx, pkgProbe.Selector, probe)\n\tif err != nil {\n\t\treturn nil, fmt.Errorf(\"parsing selector of probe #%d: %w\", index, err)\n\t}\n\treturn probe, nil\n}\n\n"
 	addMutants(
 		// ---- R1 -------------------------------------------------------------------------------
 		Mutant{Prop: "C17", Name: "r1-and-returns-at-first-failure", File: prb,
@@ -118,6 +138,40 @@ func init() {
 		Mutant{Prop: "C17", Name: "r3-benign-selector-parser-else", File: prs, Benign: true,
 			Old: "\t\ts, err := metav1.LabelSelectorAsSelector(selector.Selector)\n\t\tif err != nil {\n\t\t\treturn nil, err\n\t\t}\n\t\tprobe = &probing.LabelSelector{\n\t\t\tProber:   probe,\n\t\t\tSelector: s,\n\t\t}",
 			New: "\t\ts, err := metav1.LabelSelectorAsSelector(selector.Selector)\n\t\tif err == nil {\n\t\t\tprobe = &probing.LabelSelector{Selector: s, Prober: probe}\n\t\t} else {\n\t\t\treturn nil, err\n\t\t}"},
+
+		// extracted-helper shapes: the per-spec switch / the per-entry parser pair live in a new
+		// unexported helper with several returns; the normaliser puts its body back at the call site,
+		// where the results merge (one phi per result) and the known-flag / error tests follow the merge
+		Mutant{Prop: "C17", Name: "r3-benign-probe-helper-known-flag", File: prs, Benign: true,
+			Old: prsSwitch, New: prsHelperCall,
+			More: []Edit{{File: prs, Old: prsProbesDoc, New: prsHelper + prsProbesDoc}}},
+		Mutant{Prop: "C17", Name: "r3-probe-helper-reports-fieldsequal-unknown", File: prs,
+			Old: prsSwitch, New: prsHelperCall,
+			More: []Edit{{File: prs, Old: prsProbesDoc, New: strings.Replace(prsHelper,
+				"FieldB: probeSpec.FieldsEqual.FieldB,\n\t\t}, true, nil", "FieldB: probeSpec.FieldsEqual.FieldB,\n\t\t}, false, nil", 1) + prsProbesDoc}},
+			Expect: []string{"C17.R3@"}},
+		Mutant{Prop: "C17", Name: "r3-probe-helper-cel-reported-unknown", File: prs,
+			Old: prsSwitch, New: prsHelperCall,
+			More: []Edit{{File: prs, Old: prsProbesDoc, New: strings.Replace(prsHelper,
+				"return celProbe, true, nil", "return celProbe, false, nil", 1) + prsProbesDoc}},
+			Expect: []string{"C17.R3@"}},
+		Mutant{Prop: "C17", Name: "r3-probe-helper-known-test-inverted", File: prs,
+			Old: prsSwitch, New: strings.Replace(prsHelperCall, "if !known {", "if known {", 1),
+			More:   []Edit{{File: prs, Old: prsProbesDoc, New: prsHelper + prsProbesDoc}},
+			Expect: []string{"C17.R3@"}},
+		Mutant{Prop: "C17", Name: "r3-benign-entry-helper", File: prs, Benign: true,
+			Old: prsEntry, New: prsEntryCall,
+			More: []Edit{{File: prs, Old: prsProbesDoc, New: prsEntryHelper + prsProbesDoc}}},
+		Mutant{Prop: "C17", Name: "r3-entry-helper-swallows-selector-error", File: prs,
+			Old: prsEntry, New: prsEntryCall,
+			More: []Edit{{File: prs, Old: prsProbesDoc, New: strings.Replace(prsEntryHelper,
+				"return nil, fmt.Errorf(\"parsing selector of probe #%d: %w\", index, err)", "return probe, nil", 1) + prsProbesDoc}},
+			Expect: []string{"C17.R3@"}},
+		Mutant{Prop: "C17", Name: "r3-entry-helper-returns-unselected-prober", File: prs,
+			Old: prsEntry, New: prsEntryCall,
+			More: []Edit{{File: prs, Old: prsProbesDoc, New: strings.Replace(prsEntryHelper,
+				"\tprobe, err = ParseSelector(ctx, pkgProbe.Selector, probe)", "\t_, err = ParseSelector(ctx, pkgProbe.Selector, probe)", 1) + prsProbesDoc}},
+			Expect: []string{"C17.R3@"}},
 
 		// ---- R4 -------------------------------------------------------------------------------
 		Mutant{Prop: "C17", Name: "r4-status-compared-before-generation", File: cnd,
